@@ -493,9 +493,16 @@ def run(tier, seed, replay=None):
         "A diag(lam) B = Q/norm), torch.matrix_exp (compared with the Taylor reference)",
         "Paramcoq free theorems + Interval library (kernel-checked): the interval run encloses the real model",
         "modelled, not verified: IEEE rounding of torch kernels (tolerance 1e-9 + 32 u max(1,|Q|t) sqrt(pi_max/pi_min))"]
+    rep.assumptions = [
+        "theorems: parameters in the open domain (kappa, rates, alpha, beta > 0; every frequency > 0); the "
+        "rate-matrix / reversibility statements need only >= 0; state count >= 2",
+        "spectral theorems: A B = B A = I and (for C04_symmetric_p_t) an EXACT eigendecomposition of the "
+        "symmetrised matrix; floating-point eigh output is an oracle, re-validated per case in interval arithmetic",
+        "branch-length tensors follow the tree likelihood's convention sample_shape + (branches, categories)"]
     rng = random.Random(seed)
 
-    impl.load()
+    torch = impl.load()
+    torch.set_num_threads(1)        # tiny matrices: intra-op threads only add contention
     from torchtree.evolution.datatype import CodonDataType
     CODE_NAMES[:] = list(CodonDataType.GENETIC_CODE_NAMES)
     ok_sync, info = sync()
@@ -578,7 +585,7 @@ def run(tier, seed, replay=None):
             continue
         for r in range(c["rows"]):
             spectral = None
-            if c["kind"] in EIGH_ROUTE and c["n"] <= 8 and o["norm"][r] > 0 and min(o["pi"][r]) > 0:
+            if c["kind"] in EIGH_ROUTE and c["n"] <= 20 and o["norm"][r] > 0 and min(o["pi"][r]) > 0:
                 V, W, lam = eig_oracle(c, r, o)
                 spectral = (V, W, lam, (0, 0))
                 nspec += 1
